@@ -32,11 +32,39 @@ pub struct Stats {
     pub forced_misses: u64,
 }
 
-type Key = (&'static str, *const u8, bool);
+type Key = (&'static str, *const u8, (bool, RecursiveInfo));
 type Val = Option<(AnyNode, usize)>;
 
+/// Under `verif` the memo key carries the span's recursion info next to the shipped
+/// `bool` (which still comes from the shipped `HasExtraState<bool>` impl). Unless
+/// `set_sound_key(true)` was called on this thread the recursion info is blanked before
+/// the table sees it, so the table behaves exactly like the shipped `storage!(AnyNode, bool, 1024)`.
+impl HasExtraState<(bool, RecursiveInfo)> for SpanInfo {
+    fn get_extra_state(&self) -> (bool, RecursiveInfo) {
+        (<Self as HasExtraState<bool>>::get_extra_state(self), self.recursive_info)
+    }
+}
+
+thread_local!(
+    static SOUND_KEY: Cell<bool> = Cell::new(false)
+);
+
+/// Diagnostic mode: make the memo key include the left-recursion flags carried in the span
+/// (used to attribute a capacity-dependent result to the flag-insensitive key).
+pub fn set_sound_key(on: bool) {
+    SOUND_KEY.with(|k| k.set(on));
+}
+
+fn norm(key: &Key) -> Key {
+    if SOUND_KEY.with(|k| k.get()) {
+        *key
+    } else {
+        (key.0, key.1, ((key.2).0, RecursiveInfo::new()))
+    }
+}
+
 pub struct Storage {
-    inner: nom_packrat::PackratStorage<AnyNode, bool>,
+    inner: nom_packrat::PackratStorage<AnyNode, (bool, RecursiveInfo)>,
     policy: Policy,
     live: usize,
     lookups: Cell<u64>,
@@ -83,7 +111,7 @@ impl Storage {
                 return None;
             }
         }
-        let ret = self.inner.get(key);
+        let ret = self.inner.get(&norm(key));
         if ret.is_some() {
             self.hits.set(self.hits.get() + 1);
         }
@@ -102,7 +130,7 @@ impl Storage {
         } else {
             self.live += 1;
         }
-        self.inner.insert(key, value);
+        self.inner.insert(norm(&key), value);
         if let Policy::FlushEvery(n) = self.policy {
             if n > 0 && self.inserts % (n as u64) == 0 {
                 self.inner.clear();
